@@ -82,6 +82,10 @@ def run(ctx, replay=None):
         "repeatability of fits is claimed for an integer random_state only; excluded as documented-random without a seed: "
         "SlidingWindowTransformer(window_sample='random') (np.random.choice in fit, no seed parameter) and "
         "LZCompressionVectorizer in hashed mode with random_state=None (every LZ scenario passes an integer)",
+        "the single-call reference is one transform on an untouched deep copy of the estimator taken right after fit (a fresh "
+        "construct+fit when the estimator cannot be deep-copied: the numba-backed co-occurrence family)",
+        "SVD based models whose requested components exceed the numerical rank (or with coinciding singular values) are counted "
+        "(degenerate_svd) and their attributes not compared between two fits: the extra singular vectors are rounding noise",
         "outputs and fitted attributes are compared at rtol 1e-9 / atol 1e-12, exceptions by class; aliasing of a caller object "
         "by a fitted attribute is recorded (evidence), only a modification is a violation",
         "the faults of a blockwise fit are injected by making the k-th randomized_svd call raise (monkeypatch in the child), "
@@ -113,7 +117,7 @@ def run(ctx, replay=None):
             for a in r.get("aliases", []):
                 aliases["%s.%s" % (r["est"], a)] = aliases.get("%s.%s" % (r["est"], a), 0) + 1
             for k, v in r.get("checks", {}).items():
-                if k.startswith("fault_"):
+                if k.startswith("fault_") or k in ("reference", "degenerate_svd"):
                     faults["%s:%s" % (k, v)] = faults.get("%s:%s" % (k, v), 0) + 1
             if r.get("error"):
                 errors.append("%s/%s: %s" % (r["est"], r["seed"], r["error"]))
@@ -122,7 +126,7 @@ def run(ctx, replay=None):
                 ctx.report("%s [%s, seed %d]: %s: %s" % (r["est"], r.get("desc", "")[:160], r["seed"], v["kind"], v["detail"]),
                            {"stage": "oracle", "case": case, "kind": v["kind"], "detail": v["detail"]},
                            found_input=True, finding_key=key)
-    ctx.coverage["oracle"] = {"calls": n_calls, "calls_that_raised": n_raised, "estimators": len(per_est), "fault_outcomes": faults}
+    ctx.coverage["oracle"] = {"calls": n_calls, "calls_that_raised": n_raised, "estimators": len(per_est), "fault_and_reference_outcomes": faults}
     ctx.coverage["per_estimator"] = per_est
     ctx.coverage["aliases_observed"] = aliases
     ctx.coverage["correspondence"] = {"model": "Model/K20_History.v (sharing/mutation structure); validated by the before/after "
